@@ -528,12 +528,19 @@ def compare_obs(impl_o, model_s, ntypes, nctx):
         # a live directory without any file (crash leftover listed as live by restart) makes the segment flow
         # of a read fail as a whole now and then, like an in-flight directory without files (known findings)
         fragile = m.get(f"fragile{u}") == "true" or m.get("incomplete", "") != ""
-        if impl_o[f"sel{u}"] != sorted(ints(m.get(f"sel{u}", ""))) and not (
+        # rows of a segment label re-created within one process lifetime (model: stalerows) can be missed by any
+        # read that goes through the stale label-keyed caches - typed REPLAY and, more rarely, QUERY (known finding)
+        stale_u = set(ints(m.get("stalerows", ""))) if impl_o.get("compacted") else set()
+        msel = sorted(ints(m.get(f"sel{u}", "")))
+        stale_ok = bool(stale_u) and len(set(impl_o[f"sel{u}"])) == len(impl_o[f"sel{u}"]) and \
+            set(msel) - stale_u <= set(impl_o[f"sel{u}"]) <= set(msel)
+        if impl_o[f"sel{u}"] != msel and not stale_ok and not (
                 fragile and impl_o[f"sel{u}"] == sorted(ints(m.get(f"selm{u}", "")))):
             diffs.append(f"sel{u}: impl {impl_o[f'sel{u}']} model {m.get(f'sel{u}')}")
         # COUNT while a flush is in flight is schedule dependent in the implementation (the two flows race);
         # the correspondence compares it at quiescent observations only (the property oracle still checks it)
-        if not impl_o.get("parked_at") and not fragile and impl_o[f"cnt{u}"] != int(m.get(f"cnt{u}", "0") or 0):
+        if not impl_o.get("parked_at") and not fragile and not (stale_ok and impl_o[f"sel{u}"] != msel) \
+                and impl_o[f"cnt{u}"] != int(m.get(f"cnt{u}", "0") or 0):
             diffs.append(f"cnt{u}: impl {impl_o[f'cnt{u}']} model {m.get(f'cnt{u}')}")
     for u in range(ntypes):
         for c in range(nctx):
